@@ -321,6 +321,26 @@ def impl_main(payload):
                     elif not want_b <= inc_b * (1 + 1e-12):
                         seqv.append("EquationRegressor(metric=%r, algo=%r) fitted to new targets: %s went from %r to %r"
                                     % (metric, algo, metric, inc_b, want_b))
+    # ---- with simplification the constants of an equation fold (C_0*X_0 + C_1*X_0 has ONE free constant): after the wrapper the
+    # number of stored constants is the number of constant loads of the simplified expression, for every method
+    y_lin = 2 * x + 1
+    for eq_text in ("C_0*X_0 + C_1*X_0 + C_2", "C_0 + C_1 + X_0", "C_0*C_1*X_0 + X_0", "C_0*X_0 + C_1"):
+        for method in ("lm", "BFGS", "Nelder-Mead"):
+            g = AGraph(use_simplification=True, equation=eq_text)
+            fit_s = ExplicitRegression(ExplicitTrainingData(x, y_lin), metric="mse")
+            np.random.seed(payload["seed"] % 1000 + seqn)
+            seqn += 1
+            try:
+                LocalOptFitnessFunction(fit_s, so.ScipyOptimizer(fit_s, method=method, tol=1e-6))(g)
+            except Exception as e:  # noqa
+                seqv.append("local optimisation of the simplifying %s raised %r (%s)" % (eq_text, e, method))
+                continue
+            n_expr = int(np.count_nonzero(np.asarray(g._simplified_command_array)[:, 0] == 1))
+            n_stored = len(g.constants)
+            if n_stored != n_expr or g.get_number_local_optimization_params() != n_expr:
+                seqv.append("simplifying equation %s after local optimisation (%s): %d constants stored, the parameter count says %d, "
+                            "its simplified expression %s has %d" % (eq_text, method, n_stored, g.get_number_local_optimization_params(),
+                                                                      str(g), n_expr))
     return dict(results=results, sequences=dict(runs=seqn, viol=seqv))
 
 
